@@ -132,6 +132,20 @@ def dependency_fingerprint():
         if mm: deps[mm.group(1)] = _re.sub(r'\s+', ' ', mm.group(2)).strip()
     for sec in _re.finditer(r'^\[dependencies\.([\w-]+)\]\n(.*?)(?=^\[)', txt + '\n[', _re.S | _re.M):
         deps[sec.group(1)] = _re.sub(r'\s+', ' ', ' '.join(l.split('#')[0].strip() for l in sec.group(2).split('\n') if l.strip()))
+    def canon(spec):
+        # `"0.22"` and `{ version = "0.22", optional = false }` say the same thing: normalise to (version, sorted features, default-features, optional, anything else)
+        spec = spec.strip()
+        if spec.startswith('"'): return {'version': spec.strip('"'), 'features': [], 'default-features': True, 'optional': False}
+        out = {'version': None, 'features': [], 'default-features': True, 'optional': False}
+        body = spec.strip('{} ')
+        for mm in _re.finditer(r'([\w-]+)\s*=\s*(\[[^\]]*\]|"[^"]*"|true|false|[^,]+)', body):
+            k, v = mm.group(1), mm.group(2).strip()
+            if v in ('true', 'false'): v = (v == 'true')
+            elif v.startswith('['): v = sorted(x.strip().strip('"') for x in v.strip('[]').split(',') if x.strip())
+            else: v = v.strip('"')
+            out[k.replace('default_features', 'default-features')] = v
+        return out
+    deps = {k: canon(v) for k, v in deps.items()}
     lock = {}
     lp = os.path.join(REPO, 'Cargo.lock')
     if os.path.exists(lp):
